@@ -436,10 +436,12 @@ def search(ctx, boost=False):
             s.violations.append(dict(what=msg, case=dict(kind="pair", a=a, b=b, wrap=list(wrap))))
     # targeted: the last declaration of A carries documentation and is introduced by a specifier, a linkage specification,
     # a decoration or a template header: nothing of it may reach the first declaration of B
-    LAST = ["extern int q%d;", "static int q%d;", 'extern "C" void q%d();', 'extern "C" int q%d;', "inline int q%d = 0;", "[[nodiscard]] int q%d();",
+    LAST = ["std::integral auto q%d = 5;", "Con<int> auto q%d = f();", "template <typename T> requires C<T> void q%d(T);", "auto q%d() -> int;",
+            "void q%d(auto x);", "operator int();", "template <> struct q%d<int>;", "friend_like q%d;", "void (*q%d)(int);", "int q%d : 3;",
+            "extern int q%d;", "static int q%d;", 'extern "C" void q%d();', 'extern "C" int q%d;', "inline int q%d = 0;", "[[nodiscard]] int q%d();",
             "alignas(8) int q%d;", "__declspec(dllexport) void q%d();", "template <typename T> void q%d(T);", "typedef int q%d;",
             "using q%d = int;", "enum q%d { qa%d };", "struct q%d;", "namespace q%d { }", 'extern "C" { int q%d; }', "constexpr int q%d = 1;"]
-    FIRST = ["int b%d;", "void b%d();", "struct b%d { int m; };", "enum b%d { ba%d };", "using b%d = int;", "namespace b%d { int in; }",
+    FIRST = ["int b%d(int v);", "int b%d;", "void b%d();", "struct b%d { int m; };", "enum b%d { ba%d };", "using b%d = int;", "namespace b%d { int in; }",
              "template <typename T> struct b%d;", "/// own doc\nint b%d;"]
     k = 0
     for la in LAST:
